@@ -150,3 +150,19 @@ Definition cmp_system (tol : Q) (c : sys_case) : list (nat * nat * nat) :=
               let d := k_final cs sup i j in let f := kfin i j in
               if neqb (fst d) (fst f) && neqb (snd d) (snd f)
                  && neqb (fst (f_final fs sup i)) (fst (ffin i)) then [] else [(4, i, j)%nat]) (sy_sample c).
+
+(* ---- C04: the statement of bar_equivalence evaluated on a case (a test of the theorem's
+   statement on the bars the implementation ran, not a proof) ---- *)
+From Inkfem Require Import Spec.Resultant.
+Definition near (tol : Q) (a b : X) : bool :=
+  nleb (nabs (nsub (fst a) (fst b))) (nmul (bq tol) (nadd (snd a) (snd b))).
+Definition cmp_resultant (tol : Q) (weight : bool) (bi : nat) (b : bar Q) : list (nat * nat) :=
+  let bx := bar_map xq b in
+  let bw := if weight then with_own_weight bx else bx in
+  let lhs := sum_about_start bw (slice_bar bw) in
+  let rhs := resultant bw in
+  (if near tol (t_fx lhs) (t_fx rhs) then [] else [(bi, 0%nat)]) ++
+  (if near tol (t_fy lhs) (t_fy rhs) then [] else [(bi, 1%nat)]) ++
+  (if near tol (t_mz lhs) (t_mz rhs) then [] else [(bi, 2%nat)]).
+Definition cmp_resultants (tol : Q) (weight : bool) (bars : list (bar Q * list (pnode Q))) : list (nat * nat) :=
+  flat_map (fun p => cmp_resultant tol weight (fst p) (fst (snd p))) (indexed bars).
